@@ -15,6 +15,7 @@ import (
 	"fmt"
 	"io"
 	"net"
+	"os"
 	"strconv"
 	"strings"
 	"time"
@@ -454,6 +455,18 @@ func nego(name, sup string) string {
 // ---------- one op on the real code ----------
 
 func exec(op string) (res string) {
+	if os.Getenv("VERIF_C18_SLOW") != "" { // diagnostics only: which ops take long (stderr)
+		t0 := time.Now()
+		defer func() {
+			if d := time.Since(t0); d > time.Second {
+				l := op
+				if len(l) > 300 {
+					l = l[:300]
+				}
+				fmt.Fprintf(os.Stderr, "slow op %v: %s => %.200s\n", d, l, res)
+			}
+		}()
+	}
 	defer func() {
 		if r := recover(); r != nil {
 			res = fmt.Sprintf("crash:%v", r)
@@ -549,6 +562,9 @@ func exec(op string) (res string) {
 		return "roundtrip"
 	case "nego":
 		return nego(w[1], w[2])
+	case "rx", "negoh", "negos":
+		// a crash on the reader goroutine of a connection kills the process: run in the worker child
+		return childExec(op)
 	case "held":
 		return execHeld(w[1], w[2:])
 	case "flight":
@@ -662,7 +678,6 @@ func genBody(r *vh.Rng, maxN int) (string, string) {
 		return fmt.Sprintf("mix:%d:%d", r.Intn(1000000), n), "mix"
 	}
 }
-
 
 // ---------- body SHAPES (the dimension the codecs' internals are sensitive to) ----------
 
@@ -896,7 +911,12 @@ func reqOp(word, kind, comp string, ver byte, extra, stream int, stmt []byte, bl
 }
 
 func main() {
+	if len(os.Args) >= 2 && os.Args[1] == "worker" {
+		workerMain()
+		return
+	}
 	mode, tier, path := vh.Args()
+	defer stopWorker()
 	if mode == "replay" {
 		for _, l := range vh.ReadLines(path) {
 			fmt.Println(exec(l))
@@ -910,6 +930,25 @@ func main() {
 		mult = 12
 	}
 	streams := []int{0, 1, 2, 127, 128, 255, 256, 32767, -1}
+
+	// 000. compressed frames on every receive path of a real connection; negotiation over histories of
+	//      connections to one host (rx.go; run in a worker child process)
+	for i := 0; i < 260*mult; i++ {
+		op, cls := genRx(r)
+		out.Case(op, exec(op), cls, true)
+	}
+	for i := 0; i < 140*mult; i++ {
+		op, cls := genNegoh(r)
+		out.Case(op, exec(op), cls, true)
+	}
+	nNegos := 40 * mult
+	if nNegos > 240 {
+		nNegos = 240
+	}
+	for i := 0; i < nNegos; i++ {
+		op, cls := genNegos(r)
+		out.Case(op, exec(op), cls, true)
+	}
 
 	// 00. ownership of the buffers that cross the compressor boundary: held results (codec level, framer
 	//     level) and responses in flight on real connections (see held.go)
